@@ -33,7 +33,7 @@ TRUSTED = [
 ]
 ASSUMPTIONS = [
     'classes Sub / Top / Plain below: Integer and list-valued parameters, sub-objects in ClassSelector parameters, '
-    'one-level dependencies depends("p") / depends("a.x") with watch=True, explicit bound-method watchers',
+    'one-level dependencies depends("p") / depends("a.x") / depends("a.y", "b.y") with watch=True, explicit bound-method watchers',
     'deeper dependency paths (their parent-notification callback is a closure: not picklable), watchers with what != value, '
     'lambdas, references (allow_refs), async methods and class-level watchers are outside the model',
 ]
@@ -43,7 +43,7 @@ RULE = ('histories of object creation, sets, in-place mutations, per-instance Pa
         'both graphs at copy time and after every later operation, invocation logs with the side of every invoked object, '
         'and the same copy-side operations on a twin of the original. non-trivial = the copy succeeded, >=2 post operations, '
         'at least one watcher in the copied graph; distinct = distinct canonical case')
-COVERAGE_TARGETS = ['copy:ok', 'copy:AttributeError', 'mech:deepcopy', 'mech:pickle2', 'mech:pickle3', 'mech:pickle4', 'mech:pickle5',
+COVERAGE_TARGETS = ['copy:ok', 'mech:deepcopy', 'mech:pickle2', 'mech:pickle3', 'mech:pickle4', 'mech:pickle5',
                     'root:Top', 'root:Plain', 'root:Sub', 'pre:sub-attached-with-dependency', 'pre:sub-attached-no-dependency',
                     'pre:detached-again', 'pre:pedit', 'pre:attr', 'pre:explicit-watcher', 'pre:cross-object-watcher',
                     'post:orig', 'post:copy', 'post:attach-new-sub', 'post:log-nonempty']
@@ -78,7 +78,7 @@ class Top(param.Parameterized):
     def k(self):
         LOG.append((self, 'k'))
 
-    @param.depends('b.y', watch=True)
+    @param.depends('a.y', 'b.y', watch=True)
     def mb(self):
         LOG.append((self, 'mb'))
 
@@ -104,16 +104,16 @@ CLASSES = [
     {'name': 'Sub', 'params': [{'name': 'x', 'default': 0, 'inst': False, 'bounds': None},
                                {'name': 'y', 'default': 0, 'inst': False, 'bounds': None},
                                {'name': 'l', 'default': [5], 'inst': True, 'bounds': None}],
-     'methods': [{'name': 's', 'dep': ['x']}], 'plain': ['cb']},
+     'methods': [{'name': 's', 'deps': [['x']]}], 'plain': ['cb']},
     {'name': 'Top', 'params': [{'name': 'a', 'default': None, 'inst': True, 'bounds': None},
                                {'name': 'b', 'default': None, 'inst': True, 'bounds': None},
                                {'name': 'n', 'default': 1, 'inst': False, 'bounds': [0, 100]},
                                {'name': 'l', 'default': [1], 'inst': True, 'bounds': None}],
-     'methods': [{'name': 'm', 'dep': ['a', 'x']}, {'name': 'k', 'dep': ['n']}, {'name': 'mb', 'dep': ['b', 'y']}], 'plain': ['cb']},
+     'methods': [{'name': 'm', 'deps': [['a', 'x']]}, {'name': 'k', 'deps': [['n']]}, {'name': 'mb', 'deps': [['a', 'y'], ['b', 'y']]}], 'plain': ['cb']},
     {'name': 'Plain', 'params': [{'name': 'a', 'default': None, 'inst': True, 'bounds': None},
                                  {'name': 'n', 'default': 1, 'inst': False, 'bounds': [0, 100]},
                                  {'name': 'l', 'default': [1], 'inst': True, 'bounds': None}],
-     'methods': [{'name': 'k', 'dep': ['n']}], 'plain': ['cb']},
+     'methods': [{'name': 'k', 'deps': [['n']]}], 'plain': ['cb']},
 ]
 MECHS = ['deepcopy', 'pickle2', 'pickle3', 'pickle4', 'pickle5']
 
@@ -128,7 +128,8 @@ def _check_table():
             assert bool(P.instantiate) == p['inst'], (K, p)
             assert (list(P.bounds) if getattr(P, 'bounds', None) else None) == p['bounds'], (K, p)
             assert P.default == p['default'], (K, p)
-        assert [m[0] for m in K.param._depends['watch']] == [m['name'] for m in d['methods']], K.param._depends['watch']
+        got = [[m[0], [[p.name] for p in m[3]] + [dd.spec.split('.') for dd in m[4]]] for m in K.param._depends['watch']]
+        assert got == [[m['name'], m['deps']] for m in d['methods']], got
 
 
 _POLICY = None
@@ -174,7 +175,12 @@ def _methods(o):
 
 def _fn_owner(fn):
     if hasattr(fn, '_watcher_name'):
-        return fn.keywords['function'].__self__, 'mcaller', fn._watcher_name, fn.keywords.get('changed')
+        ch = fn.keywords.get('changed')
+        if ch is not None:
+            if not isinstance(ch, dict):
+                raise RuntimeError(f'changed= filter outside the modelled shape: {ch!r}')
+            ch = [[k, None if v is None else list(v)] for k, v in ch.items()]
+        return fn.keywords['function'].__self__, 'mcaller', fn._watcher_name, ch
     return fn.__self__, 'bound', fn.__name__, None
 
 
@@ -254,7 +260,7 @@ def snapshot(root):
                     own, kind, meth, changed = _fn_owner(w.fn)
                     if w.what != 'value' or w.mode != 'args' or w.queued or not w.onlychanged:
                         raise RuntimeError(f'watcher outside the modelled shape: {w}')
-                    row.append([_label(order, w.inst), kind, _label(order, own), meth, None if changed is None else list(changed), w.precedence])
+                    row.append([_label(order, w.inst), kind, _label(order, own), meth, changed, w.precedence])
                 ws.append([p, row])
         dyn = []
         for m in _methods(o):
@@ -264,7 +270,7 @@ def snapshot(root):
                 for w in l:
                     own, kind, meth, changed = _fn_owner(w.fn)
                     found = all(any(w == x for x in _wlist(w.inst, n)) for n in w.parameter_names)
-                    row.append([_label(order, w.inst), _label(order, own), meth, None if changed is None else list(changed), found])
+                    row.append([_label(order, w.inst), _label(order, own), meth, changed, found])
                 dyn.append([m, row])
         snap.append({
             'cls': type(o).__name__,
@@ -661,8 +667,5 @@ def shrink(case):
 
 
 def classify(case, impl, fail):
-    why = str(fail.get('why', ''))
-    if (fail.get('kind') == 'counterexample' and why == 'copy failed: AttributeError' and isinstance(impl, dict)
-            and policy() == 'always' and _has_foreign_dep_watcher(impl.get('orig_at', []))):
-        return 'setstate-rebinds-parent-method-watcher-on-subobject'
+    # the former finding setstate-rebinds-parent-method-watcher-on-subobject is fixed (04a1761): nothing is known
     return None
